@@ -95,6 +95,23 @@ Theorem C11_marg_data_only : forall n fs (px : list pixel) c1 c2 rs1 rs2 i,
 Proof. exact marg_data_only. Qed.
 Print Assumptions C11_marg_data_only.
 
+(** "coincides with the documented procedure on the dense matrix": for every chunk size the model's sweep
+    marginal of bin i is b_i * sum_j F_ij b_j, F the dense symmetric completion of the filtered
+    upper-triangular pixels with each diagonal pixel counted once *)
+Theorem C11_sparse_eq_dense : forall n chunk fs (px : list pixel) b i,
+  match chunk with Some c => 1 <= c | None => True end ->
+  Forall keyfix fs -> upper_b px = true -> inrange_b (Z.of_nat n) px = true ->
+  0 <= i < Z.of_nat n ->
+  (qnth (margf_gw n (balance_spans (zlen px) chunk) fs px b) i == rowsum (dense (filtered fs px)) n b i)%Q.
+Proof. exact margf_gw_is_rowsum. Qed.
+Print Assumptions C11_sparse_eq_dense.
+
+(** no state leaks between chunks: the per-chunk pipeline is a per-pixel map of the chunk *)
+Theorem C11_pipeline_local : forall fs (c1 c2 : list pixel),
+  pipe fs (init (c1 ++ c2)) = pipe fs (init c1) ++ pipe fs (init c2).
+Proof. exact pipeline_local. Qed.
+Print Assumptions C11_pipeline_local.
+
 (** non-vacuity *)
 Example ex_C11_spans :
   balance_spans 7 (Some 3) = [(0,3); (3,6); (6,9)] /\ balance_spans 6 (Some 3) = [(0,3); (3,6)] /\
